@@ -147,6 +147,12 @@ CLAIMS = {
         "note": "Finite universe; pickle is modelled as protocol 2 (__new__ with __getnewargs__, then state restoration modelled by __init__ with the same arguments), the pickle module itself is not analysed. " + TB,
         "technique": "abstract interpretation of the comparison / hash / repr / construction methods over instances of the repository classes; exhaustive relation checks on the finite universe",
     },
+    "C15": {
+        "level": "other",
+        "text": "group_form_integrals - with rearrange_integrals_by_single_subdomains, strip/attach_coordinate_derivatives, accumulate_integrands_with_same_metadata, canonicalize_metadata, ExprTupleKey ordering and the final merge of equal integrands over several subdomain ids - is lifted on 20 forms x both values of do_append_everywhere_integrals. Integrals are instances of ufl.Integral built by lifting its constructor; integrands are distinct coefficient atoms, so the meaning of a grouped integrand (a Sum tree built by the lifted +) is its multiset of atoms. For every (domain, integral type, extra-domain map, subdomain id, metadata, coordinate derivative) the multiset integrated there by the grouped form must equal the multiset computed directly from the original integrals (id tuples apply to each id, 'everywhere' applies to 'otherwise' and, with the append option, to every explicit id of the same group). The metadata identity of the oracle is structural (type, value, order, nesting, every array entry) and independent of canonicalize_metadata, so merging integrals whose metadata differ is a violation.",
+        "note": "Finite family (ids, tuples, everywhere; int/str/float/None metadata, sequences in both orders, nesting, 1200-entry arrays differing in one entry, key order; several types, meshes, extra-domain maps, coordinate derivatives; equal integrands with different metadata). Index renumbering before the final merge is the identity on these integrands (C10); the outermost-checker for coordinate derivatives is not lifted. " + TB,
+        "technique": "abstract interpretation of the integral-grouping functions over instances of ufl.Integral/Form + multiset comparison with a directly computed oracle",
+    },
 }
 
 NOT_APPLICABLE = {
